@@ -270,6 +270,11 @@ def get_next_segment_start(op: Segment, preprocessor_data: PreprocessorData) -> 
 def get_reserved_bits_size(op: Reserve, preprocessor_data: PreprocessorData) -> int:
     try:
         reserved_bits_size = op.calculate_reserved_bit_size(preprocessor_data.labels)
+        if reserved_bits_size < 0:
+            macro_resolve_error(
+                preprocessor_data.curr_tree,
+                f"reserve must get a non-negative size, but got {reserved_bits_size}. In {op.code_position}.",
+            )
         if reserved_bits_size % preprocessor_data.memory_width != 0:
             macro_resolve_error(
                 preprocessor_data.curr_tree,
